@@ -75,7 +75,7 @@ theorem placeAssign_step (G : GCtx) (n : Nat) (hPX1 : PX G (n + 1))
   | ok pl =>
   obtain ⟨hfr12, hvar, mem2, cur, hread, hrun3, hml12⟩ := hplace
   simp only []
-  have hsp2 := hsp.world st2' hfr12
+  have hsp2 := hsp.world st2' hfr12 hrun3.inv
   have hrel2 : StRel G.mod A.T A.N A.σ G.lim A.mp env.scopes env.vm st2'.scopes mem2 := by
     rw [hfr12]; exact hrel.rel.memLe hml12.cells
   -- the write, common to both forms
@@ -98,9 +98,9 @@ theorem placeAssign_step (G : GCtx) (n : Nat) (hPX1 : PX G (n + 1))
     | ok u =>
       obtain ⟨heap', hah, rfl⟩ := hw
       refine ⟨by rw [hfr3], mem3, ?_, hml3.mono (by omega), ?_⟩
-      · refine (hrun.trans (Runs.of_exec1 (fr := G.fr) (mem := mem3) (fun it_ k =>
+      · refine (hrun.trans (Runs.of_exec1W (fr := G.fr) (mem := mem3) (fun it_ k =>
           mkS_assign_org G.code G.lim (withIt G.s it_) A.fn ipA A.rest A.mp k stk mem3.cells st3.world A.c hA.code asp
-            (orgOf pl) heap' cur v ov iA hah))).cast hn'
+            (orgOf pl) heap' cur v ov iA hah) (fun hi => HeapInv.assign hah hi))).cast hn'
       · show GRel G A env.scopes env.vm st3.scopes mem3
         rw [hfr3]; exact hrel.memLe hml3
   cases op with
@@ -194,7 +194,7 @@ theorem index_place (G : GCtx) (n : Nat) (hPX0 : PX G n) (A : Act) (hA : A.OK G)
   | ok bv =>
   obtain ⟨hfr1, mem1, ob, hrun1, hml1⟩ := h1
   simp only []
-  have hsp1 := hsp.world st1 hfr1
+  have hsp1 := hsp.world st1 hfr1 hrun1.inv
   have hrel1 : StRel G.mod A.T A.N A.σ G.lim A.mp scopes vm st1.scopes mem1 := by
     rw [hfr1]; exact hrel.memLe hml1.cells
   have h2 := hPX0 A hA i st1 (ip + nI CB.1) (⟨bv, ob⟩ :: stk) mem1 CB.2 scopes vm hi hwi hTi (hCI ▸ hpI) hrel1 hsp1
